@@ -20,7 +20,9 @@ func ZZ_C10_Scan(shape, n, extra int) {
 	r := NewResult(t)
 	data := zzvrf.Bytes("data", n, n+extra)
 	zzvrf.Unwind(n/32 + 3)
+	zzvrf.AllocLimit(n + 64)
 	err, panicked := zzScan(r, data)
+	zzvrf.AllocCheck("allocation-bounded-by-input-size")
 	zzvrf.Assert(!panicked, "no-panic")
 	if panicked {
 		return
